@@ -258,6 +258,7 @@ Section Inv.
   (** * The graph invariant *)
   Record GInv (L : list (step * nat)) (g : graph) : Prop := mkGInv {
     gi_nodup : NoDup (g_names g);
+    gi_head : exists rest, g_names g = SOURCE :: rest;
     gi_names : forall y, In y (g_names g) <-> y = SOURCE \/ exists t i, In (t, i) L /\ y = iname' t i;
     gi_valid : forall t i, In (t, i) L -> vinst t i;
     gi_deps : forall t i, In (t, i) L ->
@@ -273,7 +274,7 @@ Section Inv.
 
   Lemma GInv_ext L L' g : (forall ti, In ti L <-> In ti L') -> GInv L g -> GInv L' g.
   Proof.
-    intros HL [A B C D E F G]. constructor; auto.
+    intros HL [A A' B C D E F G]. constructor; auto.
     - intros y; rewrite B. split; intros [?|[t [i [H1 H2]]]]; auto; right; exists t, i; split; auto; apply HL; auto.
     - intros t i H; apply C, HL; auto.
     - intros t i H; apply D, HL; auto.
@@ -288,6 +289,7 @@ Section Inv.
   Proof.
     constructor; simpl.
     - constructor; [intros []|constructor].
+    - exists []; auto.
     - intros y; split; [intros [<-|[]]; auto | intros [->|[t [i [[] _]]]]; auto].
     - intros t i [].
     - intros t i [].
@@ -303,7 +305,7 @@ Section Inv.
     connect_all pl (iname' t i) (g_add (iname' t i) (Some r) g) = Some g' ->
     GInv (L ++ [(t, i)]) g'.
   Proof.
-    intros [A B C D E F G] V Hr Hpl Hc.
+    intros [A A' B C D E F G] V Hr Hpl Hc.
     set (x := iname' t i) in *.
     destruct (add_graph_spec _ _ _ _ _ Hc) as (S1 & S2 & S3 & S4 & S5 & S6 & S7).
     assert (Hxs : x <> SOURCE) by (apply iname_not_source; auto).
@@ -327,6 +329,8 @@ Section Inv.
     constructor.
     - rewrite S1. destruct (g_has x g) eqn:Eh; auto.
       apply NoDup_snoc; auto. intros Hi. apply str_mem_In in Hi. rewrite <- g_has_names in Hi. congruence.
+    - destruct A' as [rest Hrest]. rewrite S1, Hrest. destruct (g_has x g); eauto.
+      exists (rest ++ [x]); auto.
     - intros y. rewrite S1. destruct (g_has x g) eqn:Eh.
       + rewrite B. split.
         * intros [?|[t1 [i1 [H1 H2]]]]; auto. right; exists t1, i1; split; auto. apply in_app_iff; auto.
@@ -596,7 +600,7 @@ Section Inv.
       + intros y Hy. rewrite map_app, in_app_iff. simpl. intros [Hi|[<-|[]]]; auto.
         apply (Hfresh y); auto.
       + intros y Hy. apply in_app_iff in Hy as [?|[<-|[]]]; auto.
-      + rewrite map_app; simpl. apply NoDup_snoc; auto. apply Hfresh; auto.
+      + rewrite map_app; simpl. apply NoDup_snoc; auto; apply Hfresh; simpl; auto.
       + exists done'. rewrite D1, map_app, <- app_assoc. auto.
   Qed.
 End Inv.
